@@ -238,6 +238,114 @@ Theorem C10_legacy_bounded_reject : forall c s a p,
 Proof. exact legacy_bounded_reject. Qed.
 Print Assumptions C10_legacy_bounded_reject.
 
+(* ================= round 3: order of space.agents, agent.remove(), agents= forms, coincident agents ================= *)
+
+(* space.agents / model.agents ORDER (compared in order by T2): appended by a creation, deleted in place by a removal,
+   untouched by moves and queries; the same list for the space and for the model *)
+Theorem C10_exp_agents_order : forall c ops,
+  e_active (e_final c (e_init c) ops) = fold_left (e_order_step c) ops [] /\
+  e_model (e_final c (e_init c) ops) = fold_left (e_order_step c) ops [].
+Proof. exact exp_agents_order. Qed.
+Print Assumptions C10_exp_agents_order.
+
+Theorem C10_legacy_agents_order : forall c ops,
+  akeys (l_a2i (l_final c l_init ops)) = fold_left (l_order_step c) ops [].
+Proof. exact legacy_agents_order. Qed.
+Print Assumptions C10_legacy_agents_order.
+
+(* ContinuousSpaceAgent.remove() (model.deregister_agent, then space._remove_agent) and model.remove_all_agents():
+   in every reachable state model.agents = space.agents; a removed agent is in neither, reports no position, everybody
+   else keeps theirs; remove_all_agents() empties both *)
+Theorem C10_remove_from_model_leaves_space : forall c ops a,
+  let s := e_final c (e_init c) ops in
+  e_model s = e_active s /\
+  (In a (e_model s) ->
+   let s' := fst (estep c s (ERemove a)) in
+   snd (estep c s (ERemove a)) = Some (Ok []) /\
+   ~ In a (e_model s') /\ ~ In a (e_active s') /\ e_getpos s' a = None /\
+   e_abs s' = adel a (e_abs s) /\
+   (forall b, b <> a -> e_getpos s' b = e_getpos s b)) /\
+  (let s' := fst (estep c s EClear) in
+   snd (estep c s EClear) = Some (Ok []) /\ e_model s' = [] /\ e_active s' = []).
+Proof. exact remove_from_model_leaves_space. Qed.
+Print Assumptions C10_remove_from_model_leaves_space.
+
+(* calculate_distances / calculate_difference_vector with agents=[...] after any history: defined iff every listed agent
+   is in the space; the answer lists exactly the listed agents, in the order given (repeats, empty list included), each
+   with the distance / difference vector of its last assigned position *)
+Theorem C10_exp_subset_forms_exact : forall c ops q l,
+  let s := e_final c (e_init c) ops in
+  dim_ok (ec_bounds c) q = true ->
+  (snd (estep c s (EDistancesOf q l)) <> None <-> forall a, In a l -> In a (e_active s)) /\
+  (forall rows, Forall2 (fun a p => fold_left (e_track c a) ops None = Some p) l rows ->
+     snd (estep c s (EDistancesOf q l))
+     = Some (Ok (concat (map (fun ar : Z * point => [fst ar; dist2 (ec_torus c) (ec_bounds c) (snd ar) q]) (combine l rows)))) /\
+     snd (estep c s (EDiffsOf q l))
+     = Some (Ok (concat (map (fun ar : Z * point => fst ar :: diffv (ec_torus c) (ec_bounds c) q (snd ar)) (combine l rows))))).
+Proof. exact exp_subset_forms_exact. Qed.
+Print Assumptions C10_exp_subset_forms_exact.
+
+(* DOCUMENTED BOUNDARY of agent.get_nearest_neighbors(k) = get_k_nearest_agents(self.position, k + 1) minus self, for ANY
+   legal choice raw of the k+1 nearest:  self in raw -> exactly k distinct other agents, none farther than an other agent
+   left out;  self not in raw -> the answer is raw: k+1 agents, all of them exactly on self (needs >= k+1 coincident others) *)
+Theorem C10_nearest_neighbors_boundary : forall ds k a raw,
+  In (a, 0) ds -> knn_legal ds (S k) raw = true ->
+  let out := filter (fun b => negb (b =? a)) raw in
+  (In a raw ->
+     length out = k /\ NoDup out /\ ~ In a out /\
+     (forall b x d, In b out -> In (x, d) ds -> x <> a -> ~ In x out -> dist_of ds b <= d)) /\
+  (~ In a raw ->
+     out = raw /\ length out = S k /\ NoDup out /\ (forall b, In b out -> b <> a /\ dist_of ds b <= 0)).
+Proof. exact nearest_neighbors_boundary. Qed.
+Print Assumptions C10_nearest_neighbors_boundary.
+
+(* legacy get_neighbors: include_center=False drops EVERY agent at distance 0 of the query point and nothing else;
+   radius 0 returns exactly the agents at distance 0 (centre included) / nobody (centre excluded); on a bounded space
+   distance 0 means the same point *)
+Theorem C10_legacy_center_rule : forall c (m : amap) q r a,
+  (In a (spec_neighbors c m q r false) <->
+   exists p, In (a, p) m /\ 0 < dist2 (lc_torus c) (lc_bounds c) p q <= r * r) /\
+  (In a (spec_neighbors c m q r true) <->
+   exists p, In (a, p) m /\ dist2 (lc_torus c) (lc_bounds c) p q <= r * r).
+Proof. exact legacy_center_rule. Qed.
+Print Assumptions C10_legacy_center_rule.
+
+Theorem C10_legacy_radius_zero : forall c (m : amap) q a,
+  (In a (spec_neighbors c m q 0 true) <-> exists p, In (a, p) m /\ dist2 (lc_torus c) (lc_bounds c) p q = 0) /\
+  ~ In a (spec_neighbors c m q 0 false).
+Proof. exact legacy_radius_zero. Qed.
+Print Assumptions C10_legacy_radius_zero.
+
+Theorem C10_coincident_means_same_point : forall bs p q,
+  length p = length bs -> length q = length bs -> (dist2 false bs p q = 0 <-> p = q).
+Proof. exact dist2_zero_bounded. Qed.
+Print Assumptions C10_coincident_means_same_point.
+
+(* three agents on one point and one elsewhere: agent 3 asking for 1 neighbour may get 2 (self dropped by argpartition),
+   or 1; order of space.agents / model.agents; remove and remove_all *)
+Example C10_round3_example :
+  let c := {| ec_bounds := [(-16, 48); (0, 64)]; ec_torus := false; ec_cap := 2 |} in
+  let ops := [EAdd 1 [0; 16]; EAdd 2 [0; 16]; EAdd 3 [0; 16]; EAdd 4 [32; 48]; ESet 1 [0; 16]] in
+  let s := e_final c (e_init c) ops in
+  e_active s = [1; 2; 3; 4] /\ e_model s = [1; 2; 3; 4] /\
+  firstn 4 (nth 0 (e_run c s [ENearestNbrs 3 1 [1; 2]]) []) = [1; 0; 2; 0] /\
+  firstn 2 (nth 0 (e_run c s [ENearestNbrs 3 1 [3; 1]]) []) = [1; 0] /\
+  nth 0 (e_run c s [ENearestNbrs 3 1 [3; 4]]) [] = -3 :: SEP :: e_view s /\
+  e_active (fst (estep c s (ERemove 2))) = [1; 3; 4] /\ e_model (fst (estep c s (ERemove 2))) = [1; 3; 4] /\
+  e_model (fst (estep c s EClear)) = [] /\ e_rows (fst (estep c s EClear)) = [] /\
+  firstn 4 (nth 0 (e_run c s [EDistancesOf [0; 0] [4; 1; 4]]) []) = [4; 3328; 1; 256] /\
+  firstn 1 (nth 0 (e_run c s [EDistancesOf [0; 0] []]) []) = [SEP].
+Proof. vm_compute. repeat split; reflexivity. Qed.
+
+Example C10_round3_legacy_example :
+  let c := {| lc_bounds := [(-16, 48); (0, 64)]; lc_torus := false |} in
+  let ops := [LPlace 1 [0; 16]; LPlace 2 [0; 16]; LPlace 3 [32; 48]; LRemove 1; LPlace 1 [0; 16]; LMove 2 [0; 16]] in
+  let s := l_final c l_init ops in
+  akeys (l_a2i s) = [2; 3; 1] /\
+  map (fun o => firstn 3 o) (l_run c s [LNeighbors [0; 16] 0 true; LNeighbors [0; 16] 0 false; LNeighbors [0; 16] 64 false])
+  = [[0; 1; 2]; [0; -9; 3]; [0; 3; -9]].
+Proof. vm_compute. repeat split; reflexivity. Qed.
+
 (* ================= the function the correspondence check (T2) evaluates ================= *)
 
 (* run_case - what `vm_compute` evaluates against the implementation's observations on every run - is, for every
@@ -401,8 +509,8 @@ Example C10_exp_example :
   let s := e_final (ex_cfg 0) (e_init (ex_cfg 0)) ex_ops in
   e_active s = [3; 4] /\ e_getpos s 3 = Some [32; 48] /\ e_getpos s 4 = Some [44; 6] /\ e_getpos s 1 = None /\
   length (e_store s) = 3%nat /\
-  nth 3 (e_run (ex_cfg 0) (e_init (ex_cfg 0)) ex_ops) [] = [1; 0; 2; 784; -9; 3; 3; 1; 0; 16; 2; 36; 16; 3; 32; 48] /\
-  nth 7 (e_run (ex_cfg 0) (e_init (ex_cfg 0)) ex_ops) [] = [1; 0; 3; 800; -9; 3; 3; 1; 12; 28; 3; 32; 48; 4; 44; 6].
+  nth 3 (e_run (ex_cfg 0) (e_init (ex_cfg 0)) ex_ops) [] = [1; 0; 2; 784; -9; 3; 3; 1; 0; 16; 2; 36; 16; 3; 32; 48; -9; 1; 2; 3] /\
+  nth 7 (e_run (ex_cfg 0) (e_init (ex_cfg 0)) ex_ops) [] = [1; 0; 3; 800; -9; 3; 3; 1; 12; 28; 3; 32; 48; 4; 44; 6; -9; 1; 3; 4].
 Proof. vm_compute. repeat split; reflexivity. Qed.
 
 (* the same agent 4 in the 10-operation history from capacity 0 and in its 1-operation projection from capacity 100 *)
